@@ -294,6 +294,16 @@ func (p *proxyConn) handleMITM(req *http.Request) error {
 	return nil
 }
 
+// closeNotify ends the TLS session that handleMITM has set up on the connection, if any.
+func (p *proxyConn) closeNotify() {
+	tc, ok := p.conn.(*tls.Conn)
+	if !ok || !p.mitm {
+		return
+	}
+	tc.SetWriteDeadline(time.Now().Add(lingeringCloseTimeout))
+	tc.CloseWrite() //nolint:errcheck // the connection is closed next
+}
+
 func (p *proxyConn) handleConnectRequest(req *http.Request) error {
 	ctx := req.Context()
 	log.Debug(ctx, "read CONNECT request", "host", req.URL.Host)
